@@ -2,6 +2,7 @@
 //! 
 //! Provides Redis-compatible hash operations for field-value pairs within a key.
 
+use crate::storage::commands::RedisInt;
 use crate::error::{FerrousError, Result, StorageError};
 use crate::protocol::RespFrame;
 use crate::storage::StorageEngine;
@@ -356,7 +357,7 @@ pub fn handle_hincrby(storage: &Arc<StorageEngine>, db: usize, parts: &[RespFram
     // Extract increment
     let increment = match &parts[3] {
         RespFrame::BulkString(Some(bytes)) => {
-            match String::from_utf8_lossy(bytes).parse::<i64>() {
+            match String::from_utf8_lossy(bytes).parse_redis::<i64>() {
                 Ok(n) => n,
                 Err(_) => return Ok(RespFrame::error("ERR value is not an integer or out of range")),
             }
